@@ -51,6 +51,22 @@ def run(chk, ctx):
     fn = repo.method(rel, "CheckpointSchedule", "finalize")
     chk.files.add(rel)
     chk.functions.add(f"{rel[:-3]}.CheckpointSchedule.finalize")
+    # the decision table reads `is` / `is not` as equality, which is what they mean for None, True/False and enum members
+    # only: two equal integers are in general distinct objects (outside CPython's small-integer cache), so a guard that
+    # compares numbers by identity rejects (or accepts) calls depending on object identity
+    k_id = 0
+    for x in ast.walk(fn):
+        if isinstance(x, ast.Compare) and any(isinstance(o, (ast.Is, ast.IsNot)) for o in x.ops):
+            operands = [x.left] + list(x.comparators)
+
+            def singleton(e):
+                return (isinstance(e, ast.Constant) and (e.value is None or isinstance(e.value, bool))) or \
+                    (isinstance(e, ast.Attribute) and isinstance(e.value, ast.Name) and e.value.id[:1].isupper())
+            if not any(singleton(e) for e in operands):
+                chk.decide("C10.TABLE", f"schedule.CheckpointSchedule.finalize#identity[{k_id}]", False,
+                           f"`{ast.unparse(x)}` compares numbers by identity: equal step counts that are distinct int objects "
+                           "(values above the small-integer cache) are treated as different", rel=rel, node=x, nontrivial=False)
+                k_id += 1
     params = [a.arg for a in fn.args.args]
     if len(params) != 2:
         chk.decide("C10.TABLE", "schedule.CheckpointSchedule.finalize", None, f"unexpected signature {params}", rel=rel, node=fn)
